@@ -62,6 +62,8 @@ class Model(object):
         self.clock = 0
 
     def tick(self, same=False):
+        if same:
+            self.tied = True      # two signatures of this key now share a creation second: their relative order is not determined
         if not same:
             self.clock += 60
         return T0 + timedelta(seconds=self.clock)
@@ -183,7 +185,7 @@ class Actor(object):
                 cand = [t for t in live if not m.uids[t]['revoked']]
                 if len(cand) < 2:
                     return False
-                t = cand[-1]
+                t = cand[len(cand) // 2] if r is None else r.choice(cand)        # any of them; in the enumerated histories the one in the middle
                 u = self.uid_obj(t)
                 u |= k.revoke(u, created=m.tick())
                 m.uids[t]['revoked'] = True
@@ -326,6 +328,18 @@ def check_actor(ctx, a, where):
         if got_exp not in cands and not (got_exp is None and None in cands):
             if not any(mu['revoked'] for mu in m.uids.values()):
                 ctx.fail('key-expiry-not-from-a-most-recent-self-signature', dict(where, form=form, got=got_exp, candidates=sorted(str(c) for c in cands)))
+    # (4b) the key, its twin, a copy and the re-imported key present the identities in the same order, and copy / re-import export identically
+    order = [u.name for u in k.userids] + ['<ua>'] * len(k.userattributes)
+    same_second = any(len({s_['created'] for s_ in mu['sigs']}) < len(mu['sigs']) for mu in m.uids.values()) or \
+        len({mu['sigs'][-1]['created'] for mu in m.uids.values()}) < len(m.uids) or getattr(m, 'tied', False)
+    kb = bytes(k)
+    for form, other_ in (('twin', pub), ('copy', copy.copy(k)), ('reimported', pg.PGPKey.from_blob(kb)[0])):
+        o2 = [u.name for u in other_.userids] + ['<ua>'] * len(other_.userattributes)
+        ctx.count('identity_orders_compared')
+        if o2 != order and not same_second:
+            ctx.fail('identity-order-differs-between-views-of-one-key', dict(where, form=form, key=order, other=o2))
+        if form != 'twin' and bytes(other_) != kb and not same_second:
+            ctx.fail('copy-or-reimport-exports-differently', dict(where, form=form, lens=[len(kb), len(bytes(other_))]))
     # (5) fresh twin = public projection of the private export
     try:
         t_pub, bad = C07.tree_of_public(blob)
